@@ -36,8 +36,9 @@ OPEN_STATEMENTS = [
     'number_preserving matrix = compression of the operator to the determinant basis and totality (no exception on admissible '
     'input): only the sign / target loop (build_term_op_sound) is proved; the lookup (argsort / searchsorted) is covered by the '
     'number-preserving stream',
-    'expectation_cbs_list_sound: expectation value = <s|F|s> for normal-ordered operators with at most two-body terms: only '
-    'the agreement of the vector and list conventions (expectation_vector_is_list) is proved',
+    'expectation_cbs_list_sound: expectation value = <s|F|s> for normal-ordered operators with at most two-body terms: proved '
+    'are the agreement of the vector and list conventions (expectation_vector_is_list) and the Spec diagonal elements of the '
+    'three kinds of terms the function reads (expectation_terms_sound); the summation over the dictionary is not',
     's_squared = S-S+ + Sz(Sz+1), sx, sy, s_plus, s_minus: covered by the special-operators stream (Spec formula equality on all '
     'basis states); sz and the number operator are proved diagonal (sz_operator_diag, number_operator_diag)',
     'jw_get_ground_state_at_particle_number: float contract over eigsh / eigh only; observation outside the property: it raises '
